@@ -49,7 +49,8 @@ FLOORS = {
 W5_MONITORS = ['bijection']
 CASE_TIMEOUT = {"quick": 90, "thorough": 180}
 SIZES = {"quick": 450, "thorough": 9000}
-KINDS = ("relabel", "redundant", "repack", "repack", "reload", "self", "unrelated", "finder", "near", "symatom")
+KINDS = ("relabel", "redundant", "repack", "repack", "reload", "self", "unrelated", "finder", "near", "symatom",
+         "sympath", "sympath")
 
 
 def shard_setup(tier):
@@ -128,6 +129,34 @@ def gen_cases(tier, seed):
             c2 = dict(c1, prefix=c1["prefix"].translate(tr))
             p2 = dict(p1)
             kind = "finder"
+        elif kind == "sympath":
+            # letter-swap-invariant patterns with redundant extensions under a pack with the
+            # symmetry and pattern minimisation: equivalence paths of several steps whose
+            # first steps move the object (symmetry, then minimisation); the partner has the
+            # minimal patterns and, half of the time, neither symmetry nor inferral
+            tr = str.maketrans("ab", "ba")
+            basis = rng.choice((["aa", "bb"], ["ab", "ba"], ["aaa", "bbb"], ["aab", "bba"], ["aba", "bab"]))
+            extra = set()
+            for _ in range(rng.randint(1, 2)):
+                q = rng.choice(basis)
+                q = q + rng.choice("ab") if rng.random() < 0.5 else rng.choice("ab") + q
+                extra.update((q, q.translate(tr)))
+            c1 = {"prefix": "".join(rng.choice("ab") for _ in range(rng.choice((0, 1, 1, 2)))),
+                  "patterns": sorted(set(basis) | extra), "alphabet": "ab", "just_prefix": False,
+                  "stats": [], "bytes": False, "proper": rng.random() < 0.3}
+            if rw.is_empty(c1):
+                continue
+            p1.update(sym=True, inferral=["minimise"], factory=None)
+            if rng.random() < 0.6:
+                c2, p2 = relabel(c1, rng), dict(p1)  # the same structure on both sides
+            else:
+                c2 = dict(c1, patterns=sorted(basis))
+                if rng.random() < 0.5:
+                    c2 = relabel(c2, rng)
+                p2 = dict(p1) if rng.random() < 0.5 else atom_pack(rng)
+                if rng.random() < 0.5:
+                    p2.update(sym=False, inferral=[])
+            kind = rng.choice(("finder", "sympath", "sympath"))
         elif kind == "finder":
             p1["sym"] = True
             c2, p2 = relabel(c1, rng), dict(p1)
@@ -168,13 +197,10 @@ def all_atoms(spec):
     return all(c.is_atom() or c.is_empty() for c, r in spec.rules_dict.items() if isinstance(r, VerificationRule))
 
 
-def run_case(case):
+def build_pair(case):
+    """The two specifications of a pair case, or a string saying why there are none."""
     from comb_spec_searcher import CombinatorialSpecification
-    from comb_spec_searcher.isomorphism import Bijection, Isomorphism
-    from vuniv.words import W
 
-    cx = base.ctx()
-    m_bijection.CONFIG["N"] = case["N"]
     if case["kind"] == "finder":
         from comb_spec_searcher.bijection import ParallelSpecFinder
 
@@ -185,12 +211,12 @@ def run_case(case):
         except (ValueError, AssertionError):
             out = None  # the finder's own behaviour is C13's subject
         if out is None:
-            return {"skip": "finder returned no pair"}
+            return "finder returned no pair"
         s1, s2 = out
     else:
         s1 = _search(case["c1"], case["p1"], case["db"], case["seed"])
         if s1 is None:
-            return {"skip": "no specification"}
+            return "no specification"
     if case["kind"] == "finder":
         pass
     elif case["kind"] == "self":
@@ -200,7 +226,20 @@ def run_case(case):
     else:
         s2 = _search(case["c2"], case["p2"], case["db"], case["seed"] + 1)
         if s2 is None:
-            return {"skip": "no specification"}
+            return "no specification"
+    return s1, s2
+
+
+def run_case(case):
+    from comb_spec_searcher.isomorphism import Bijection, Isomorphism
+    from vuniv.words import W
+
+    cx = base.ctx()
+    m_bijection.CONFIG["N"] = case["N"]
+    pair = build_pair(case)
+    if isinstance(pair, str):
+        return {"skip": pair}
+    s1, s2 = pair
     cx.see("pair_kind", case["kind"])
     for n in range(case["N"] + 1):  # force lazily added empty rules on both sides
         s1.get_terms(n)
@@ -222,6 +261,8 @@ def run_case(case):
     nontrivial = False
     if b12 is not None:
         cx.count("c12.bijections_" + case["kind"])
+        if searchlib.moving_paths(s1) or searchlib.moving_paths(s2):
+            cx.count("c12.bijections_through_multi_step_moving_path")
         try:
             Bijection.from_dict(json.loads(json.dumps(b12.to_jsonable())))  # postcondition
             ident = all(str(b12.map(W(w))) == w for n in range(min(case["N"], 5) + 1)
